@@ -101,10 +101,23 @@ theorem decide_answer_msg {h : Host} {e : Ev} {lis : Listener} {pkts : List Pkt}
     simp only [Host.decide] at hd
     repeat' split at hd
     all_goals cases hd
+  | qremove t d recs =>
+    simp only [Host.decide] at hd
+    cases hd
+
+/-- a block of the reply model that a history (`kstep`) accepts is accepted by `Host.step` and is not the reply model's own
+withdrawal block (in these histories the purge is `KEv.purge`) -/
+theorem kstep_blk {h : Host} {e : Ev} {r : StepOut} (hs : kstep h (.blk e) = .ok r) :
+    h.step e = .ok r ∧ ∀ t d recs, e ≠ .qremove t d recs := by
+  cases e with
+  | qremove t d recs => simp [kstep] at hs
+  | rx t addr port dataId size hasQu kind seen draws => exact ⟨hs, by intro _ _ _ hh; cases hh⟩
+  | tcfire t addr seen draws => exact ⟨hs, by intro _ _ _ hh; cases hh⟩
+  | qfire t d => exact ⟨hs, by intro _ _ _ hh; cases hh⟩
 
 /-- one block of the reply model keeps the invariant -/
 theorem KI.blk {k : RecId} {V : List RecId → Prop} {clock : Int} {h : Host} {e : Ev} {r : StepOut} (hI : KI k V clock h)
-    (hc : clock ≤ e.time) (hs : h.step e = .ok r)
+    (hc : clock ≤ e.time) (hs : h.step e = .ok r) (hnr : ∀ t d recs, e ≠ .qremove t d recs)
     (hntc : ∀ t addr port dataId size hasQu p seen draws, e = .rx t addr port dataId size hasQu (.query p) seen draws → p.truncated = false)
     (hcv : ∀ t addr port dataId size hasQu p seen draws, e = .rx t addr port dataId size hasQu (.query p) seen draws → CandV k V [p]) :
     KI k V e.time r.host := by
@@ -126,6 +139,10 @@ theorem KI.blk {k : RecId} {V : List RecId → Prop} {clock : Int} {h : Host} {e
     obtain ⟨t, addr, port, dataId, size, hasQu, p, seen, draws, he, htr⟩ := decide_defer_truncated hd
     rw [hntc t addr port dataId size hasQu p seen draws he] at htr
     cases htr
+  | remove d recs =>
+    exfalso
+    obtain ⟨t, he⟩ := decide_remove hd
+    exact hnr t d recs he
   | ready d =>
     obtain ⟨t, rfl⟩ := decide_ready hd
     obtain ⟨hl, hf, ht⟩ := perform_ready hp
@@ -203,7 +220,7 @@ theorem KI.kstep {k : RecId} {V : List RecId → Prop} {clock : Int} {h : Host} 
     KI k V e.time r.host := by
   cases e with
   | blk e =>
-    refine hI.blk hc hs ?_ ?_
+    refine hI.blk hc (kstep_blk hs).1 (kstep_blk hs).2 ?_ ?_
     · intro t addr port dataId size hasQu p seen draws he
       exact hntc t addr port dataId size hasQu p seen draws (by rw [he]; simp)
     · intro t addr port dataId size hasQu p seen draws he
@@ -283,6 +300,12 @@ theorem step_lis {h : Host} {e : Ev} {r : StepOut} (hs : h.step e = .ok r) (_hnd
     obtain rfl := decide_qfire hd
     obtain ⟨hl, _, _⟩ := perform_ready hp
     rw [hl]; exact ⟨rfl, rfl, rfl⟩
+  | qremove t d recs =>
+    right
+    simp only [Host.decide] at hd
+    cases hd
+    obtain ⟨_, hl, _⟩ := perform_remove hp
+    rw [hl]; exact ⟨rfl, rfl, rfl⟩
 
 /-- **the listener's memory is right at the end of every history**: the remembered datagram is a block of the history -/
 theorem KRun.lastOK {k : RecId} {V : List RecId → Prop} {h : Host} {c : Int} {ks : List KEv} {h' : Host} {c' : Int}
@@ -300,7 +323,7 @@ theorem KRun.lastOK {k : RecId} {V : List RecId → Prop} {h : Host} {c : Int} {
             p.truncated = false := by
           intro t addr port dataId size hasQu p seen draws he
           exact hntc t addr port dataId size hasQu p seen draws (by rw [he]; simp)
-        rcases step_lis hs hI.noDeferred hI.noTimers hn with
+        rcases step_lis (kstep_blk hs).1 hI.noDeferred hI.noTimers hn with
           ⟨t, addr, port, dataId, size, hasQu, kind, seen, draws, rfl, hf, e1, e2, e3⟩ | ⟨e1, e2, e3⟩
         · intro d hd
           rw [e1] at hd
@@ -340,9 +363,12 @@ theorem KRun.live (d : Bool) {k : RecId} {V : List RecId → Prop} {h : Host} {c
       · exact Or.inr hfin
     cases e with
     | blk e =>
-      obtain ⟨a, hd, hperf⟩ := step_decide hs
-      have hax := LoopAx.of_step hc hs
-      rcases step_queue_effect d hd hperf with ⟨heq, _⟩ | ⟨cc, now, dr, ans, heq, _⟩ | ⟨s, hes, heq, houts⟩
+      obtain ⟨hs', hnr⟩ := kstep_blk hs
+      obtain ⟨a, hd, hperf⟩ := step_decide hs'
+      have hax := LoopAx.of_step hc hs'
+      rcases step_queue_effect d hd hperf with ⟨heq, _⟩ | ⟨cc, now, dr, ans, heq, _⟩ | ⟨s, hes, heq, houts⟩ | ⟨s, recs, hes, _⟩
+      rotate_right
+      · exact absurd hes (hnr s d recs)
       · exact cont ⟨g, by rw [heq]; exact hg, hx, hD'⟩
       · obtain ⟨g', hg', hx', hb⟩ := Queue.add_keeps (qpOf d) (h.q d) cc now dr ans hg hx
         exact cont ⟨g', by rw [heq]; exact hg', hx', by rw [hb]; exact hD'⟩
